@@ -222,4 +222,27 @@ WITNESSES = [
     dict(id="c07-ok-cache-local", prop="C07", file=S, expect=None,
          edits=[("    filtered_terms = defaultdict(list)\n", "    _term_data_cache: dict = {}\n    filtered_terms = defaultdict(list)\n"),
                 _CACHE_LOOKUP("term.sympy"), _CACHE_STORE("term.sympy")]),
+
+    # ------------------------------------------------------------------ terms without indices
+    # index-free terms (numbers, symbols) skipped and never registered: simplify drops them
+    dict(id="c07-index-free-terms-dropped", prop="C07", file=S, expect="R07c",
+         edits=[("    term_pattern = []\n    term_target = []\n", "    term_pattern = {}\n    term_target = {}\n"),
+                ("    for term_i, term in enumerate(terms):\n        # target indices\n        target = term.target\n        term_target.append(target)\n",
+                 "    for term_i, term in enumerate(terms):\n        if not term.idx:\n            continue\n        # target indices\n"
+                 "        target = term.target\n        term_target[term_i] = target\n"),
+                ("        term_pattern.append(pattern)\n", "        term_pattern[term_i] = pattern\n")]),
+    # the same shortcut done right: index-free terms skip the fingerprinting but get a class of their own
+    dict(id="c07-ok-index-free-terms-own-class", prop="C07", file=S, expect=None,
+         old="    for term_i, term in enumerate(terms):\n        # target indices\n        target = term.target\n        term_target.append(target)\n",
+         new="    for term_i, term in enumerate(terms):\n        if not term.idx:\n            term_target.append(term.target)\n"
+             "            term_pattern.append({})\n            filtered_terms[('no index', term_i)].append(term_i)\n            continue\n"
+             "        # target indices\n        target = term.target\n        term_target.append(target)\n"),
+    # index-free terms registered but compared with nothing (length-zero pattern shortcut inside the comparison loop)
+    dict(id="c07-ok-index-free-terms-not-compared", prop="C07", file=S, expect=None,
+         old="            for other_i in range(i+1, len(term_idx_list)):\n",
+         new="            if not pattern:\n                continue\n            for other_i in range(i+1, len(term_idx_list)):\n"),
+    # simplify drops pure numbers before the search and forgets to add them back
+    dict(id="c07-simplify-numbers-lost", prop="C07", file=S, expect="R07c",
+         old="    terms = expr.terms\n    equal_terms = find_compatible_terms(terms)\n",
+         new="    terms = tuple(t for t in expr.terms if t.idx)\n    equal_terms = find_compatible_terms(terms)\n"),
 ]
